@@ -278,11 +278,13 @@ def run(ctx):
         import gen_inputs
         al = gen_inputs.param_assignments(p, ctx.rng, 4)
         keyA, keyB = al[0], al[1]
-        allw = itertools.product(alphabet, repeat=depth)
+        # quick: a fifth of the words of length 5; thorough: every word of length 5 and a fifth of those of length 6
+        allw = itertools.product(alphabet, repeat=5) if ctx.tier == 'quick' else \
+            itertools.chain(itertools.product(alphabet, repeat=5), itertools.product(alphabet, repeat=6))
         for word in allw:
             if word[0] not in ('A', 'B'):
                 continue            # words are taken modulo leading idle events
-            if ctx.tier == 'quick' and ctx.rng.random() > 0.2:
+            if (ctx.tier == 'quick' or len(word) == 6) and ctx.rng.random() > 0.2:
                 continue
             try:
                 st = run_word(pname, keyA, keyB, word)
